@@ -126,7 +126,7 @@ def to_list(x):
     if isinstance(x, SymArray):
         if x.dtype.kind == "S":
             return _strip_nul(x.vals.tolist(), x.ndim)
-        return x.vals.tolist()
+        return _pyscalars(x.vals.tolist())
     if isinstance(x, np.ndarray):
         if x.dtype.kind == "S":
             k = x.dtype.itemsize
@@ -159,13 +159,24 @@ def to_list(x):
     raise TypeError(f"to_list: {type(x)}")
 
 
+def _pyscalars(v):
+    if isinstance(v, list):
+        return [_pyscalars(i) for i in v]
+    return v.item() if isinstance(v, np.generic) else v
+
+
+class SStr(list):
+    """one byte string of an 'S' array; trailing NUL padding is not significant (it may still be symbolic here:
+    job.eval_out strips it after evaluation, posts must accept a tail of zeros)"""
+
+
 def _strip_nul(v, depth):
     """byte strings ('S' arrays): drop the trailing NUL padding of each string"""
     if depth == 0:
-        v = list(v)
+        v = [i.item() if isinstance(i, np.generic) else i for i in v]
         while v and isinstance(v[-1], int) and v[-1] == 0:
             v.pop()
-        return v
+        return SStr(v)
     return [_strip_nul(i, depth - 1) for i in v]
 
 
